@@ -56,5 +56,25 @@ def pfx : Handler := fun args impl =>
     | _, _, _ => bad "decode"
   | _ => bad "arity"
 
-def handlers : List (String × Handler) := [("pfx", pfx)]
+/-- typed targets: the property's predicate on the implementation's prefix outcomes (no model yet) -/
+def pfxt : Handler := fun args impl =>
+  match args with
+  | [_, name, _, h] =>
+    match bytesOfHex h with
+    | some bs =>
+      let obs := impl.splitOn ","
+      let spec : List String :=
+        if obs.length != bs.length + 1 then ["C10 malformed observation"] else
+        let bad := (List.range bs.length).filterMap fun k =>
+          let o := obs[k]!
+          let (l, col) := lineCol (bs.take k) k
+          if o == "A" || o == "-" || o == s!"eof:{l}:{col}" then none else some (k, o)
+        match bad with
+        | [] => []
+        | (k, o) :: _ => [s!"C10 typed target {name}: prefix of length {k} of an accepted text fails with {o} (expected success or eof at its end) [{bad.length} prefix(es)]"]
+      { model := impl, specs := spec }
+    | none => bad "hex"
+  | _ => bad "arity"
+
+def handlers : List (String × Handler) := [("pfx", pfx), ("pfxt", pfxt)]
 end SJ.Drv.C10
